@@ -74,6 +74,10 @@ def decompositions(w, h, tier):
     if c2 < w - 1:
         out.append(("three", [(0, 0, c1 + 8, h, 0), (c1, 0, c2 + 8, h, 4), (c2, 0, w, h, 0)]))
     out.append(("quad-l", [(0, 0, w // 2 + 6, h // 2 + 6, 0), (w // 2, 0, w, h, 0), (0, h // 2, w // 2 + 6, h, 3)]))
+    # an input lying strictly inside another one (every order: the contained one first makes the later input extend
+    # the union on both sides of both axes at once), and three nested frames
+    out.append(("contained", [(w // 4, h // 4, w // 2 + 20, h // 2 + 30, 0), (0, 0, w, h, 0)]))
+    out.append(("nested3-nan", [(w // 3, h // 3, w // 2 + 10, h // 2 + 10, 0), (w // 6, h // 8, w - 40, h - 30, 3), (0, 0, w, h, 3)]))
     return out
 
 
@@ -166,6 +170,9 @@ def serial_case(d, size, dname, rects, bottom_up, order, fmt, part):
     A = assembled(M, rects)
     root = os.path.join(d, "mt")
     shutil.rmtree(root, ignore_errors=True)
+    # the serial route runs as in a plain interactive session: no batch-system variable (SLURM_NPROCS is only
+    # set by this framework to bound toasty's *default* parallelism elsewhere; here parallel=1 is explicit)
+    slurm = os.environ.pop("SLURM_NPROCS", None)
     try:
         with quiet():
             ref_root, ref_b = reference_route(d, A, wcs, fmt)
@@ -177,6 +184,9 @@ def serial_case(d, size, dname, rects, bottom_up, order, fmt, part):
     except Exception as e:
         bad("raises:%s" % type(e).__name__, repr(e))
         return
+    finally:
+        if slurm is not None:
+            os.environ["SLURM_NPROCS"] = slurm
     lev = ref_b.imgset.tile_levels
     diffs = []
     for a in IMGSET_ATTRS:
@@ -370,7 +380,9 @@ def _job(j):
 def run(tier, seed):
     rep = Report(PROP, tier, seed, "model_checking")
     # (600, 560) fills whole 256-pixel tiles (inputs that cover a complete tile take other code paths)
-    sizes = [(300, 280), (257, 300), (600, 560)] + ([(520, 260)] if tier == "thorough" else [])
+    # (518, 300): the mosaic is centred in a 1024 canvas at x = 253, so its 3-5 pixel undefined borders are ALL that the
+    # outer tile columns receive (positions that are locked and updated but never stored)
+    sizes = [(300, 280), (257, 300), (600, 560), (518, 300)] + ([(520, 260)] if tier == "thorough" else [])
     rep.rule = (
         "E2: mosaics %r x decompositions (cuts at 100/256/257, 10-pixel overlaps with agreeing data, 3-5 pixel NaN borders, 3-way splits) x both input parities "
         "(uniform) x all input orders x {fits, npy}: MultiTanProcessor vs tiling the pasted mosaic. E1: the multi-TAN stage with shared tiles under the "
@@ -388,6 +400,8 @@ def run(tier, seed):
                         if tier == "quick" and fmt == "npy" and (len(rects) > 2 or bottom_up is not True):
                             continue
                         if tier == "quick" and size[0] >= 600 and not ("nan" in dname or dname in ("three", "quad-l")):
+                            continue
+                        if tier == "quick" and size[0] == 518 and not ("nan" in dname or dname == "contained"):
                             continue
                         cases.append((size, dname, rects, bottom_up, order, fmt))
     for blank in (0.0, -999.0, 0):
